@@ -361,6 +361,81 @@ def analyze_bits(facts, fty):
     return ctx
 
 
+def _pre_snapshot(st, fr):
+    """C13: remember the cells of the `&mut self` argument and mark the path as not having written any untracked memory"""
+    from .domain import const_int as _c
+    st.ghost[("pristine",)] = _c(1)
+
+
+def failure_unchanged_postconditions(ctx, inst):
+    """C13: a fallible vector operation that reports failure (returns None) leaves the vector as it was: on every exit whose return value is
+    None, (a) every tracked cell of `*self` holds the very atom it held on entry (atoms are immutable values, so identity = unchanged),
+    (b) no raw / untracked memory write happened on the path (must-mark `pristine` still present)."""
+    ctx.record = True
+    entry = getattr(ctx, "entry_cells", {})
+    n_none = 0
+    for st, rv in ctx.exit_states:
+        if not isinstance(rv, Fields):
+            continue
+        d = rv.d.get(("discr",))
+        if not (isinstance(d, int) and d in G.base and st.get_iv(d) == (0, 0)):
+            continue
+        n_none += 1
+        changed = []
+        for k, a in entry.items():
+            if k[-1] in (("g", "pstart"), ("g", "pend")):
+                continue
+            b = st.env.get(k)
+            if b != a:
+                changed.append(str(k[3:]))
+        extra = [str(k[3:]) for k in st.env if len(k) > 3 and k[:3] == (ctx.arg_frame, 1, "pointee") and k not in entry
+                 and k[-1] in (("g", "pstart"), ("g", "pend"))]
+        ok = not changed and not extra and ("pristine",) in st.ghost
+        why = "changed cells of *self: %s; pending raw writes: %s; untracked memory written: %s" % (changed[:6], extra[:2], ("pristine",) not in st.ghost)
+        ctx.oblige("post:a failed operation leaves the vector unchanged", ok, inst, inst.get("span"), why)
+    ctx.oblige("post:failing exits found", n_none >= 1, inst, inst.get("span"), "%d exits return None" % n_none)
+
+
+def analyze_masks(facts):
+    """C18, bit-mask helpers for all widths 0..=64: the width range is partitioned into {0},{1},[2,62],{63},{64}; on each class the abstract
+    result of lower_n_mask / lower_n_halfway / nth_bit must lie inside the hull of the definition (2^n - 1, 2^(n-1) or 0, 2^n) over that class.
+    Exact on the boundary widths, an interval inclusion on [2,62]."""
+    ctx = Ctx(facts, "valid")
+    ctx.record = True
+    spec = {
+        "lower_n_mask": (lambda n: (1 << n) - 1, 64),
+        "lower_n_halfway": (lambda n: 0 if n == 0 else 1 << (n - 1), 64),
+        "nth_bit": (lambda n: 1 << n, 63),
+    }
+    for nm, (fn, top) in spec.items():
+        insts = find_insts(facts, "minimal_lexical::mask::" + nm)
+        if not insts:
+            ctx.oblige("post:mask helper present: " + nm, False, {"dpath": "minimal_lexical::mask::" + nm, "path": nm, "targs": [], "krate": "minimal_lexical"}, {}, "no instance")
+            continue
+        inst = insts[0]
+        classes = [(0, 0), (1, 1), (2, top - 2), (top - 1, top - 1), (top, top)]
+        covered = 0
+        for lo, hi in classes:
+            covered += hi - lo + 1
+            G.reset()
+            c2 = analyze_fn(facts, inst, "valid", overrides={1: (lambda st, key, lo=lo, hi=hi: new_int(lo, hi))}, ctx=ctx)
+            got = None
+            for st, rv in c2.exit_states:
+                if isinstance(rv, int) and rv in G.base:
+                    r = st.get_iv(rv)
+                    got = r if got is None else (min(got[0], r[0]), max(got[1], r[1]))
+                else:
+                    got = None
+                    break
+            want = (min(fn(lo), fn(hi)), max(fn(lo), fn(hi)))
+            ok = got is not None and want[0] <= got[0] and got[1] <= want[1]
+            ctx.oblige("post:mask %s on widths [%d,%d]" % (nm, lo, hi), ok, inst, inst.get("span"), "result %s, definition requires within %s" % (got, want))
+        ctx.oblige("post:mask classes of %s cover widths 0..=%d" % (nm, top), covered == top + 1, inst, inst.get("span"), "%d widths" % covered)
+    ctx.exits = 0
+    ctx.wall = 0.0
+    return ctx
+
+
 def report(ctx, out=sys.stdout, only_failed=True):
     n = len(ctx.obs)
     bad = [o for o in ctx.obs.values() if o.failed]
@@ -468,6 +543,7 @@ def analyze_fn(facts, inst, model, overrides=None, ctx=None, pre=None, keep_path
             ctx.arg_atoms[i] = v
     if pre:
         pre(st, fr)
+    ctx.entry_cells = {k: a for k, a in st.env.items() if len(k) > 3 and k[:3] == (afr, 1, "pointee")}
     t0 = time.time()
     I.mod.active.add(inst["id"])
     ctx.root_frame = fr
@@ -498,6 +574,10 @@ if __name__ == "__main__":
     from mlxsa import facts as F
     if sys.argv[1] == "fn":
         main_fn(sys.argv[2:])
+        sys.exit(0)
+    if sys.argv[1] == "masks":
+        f = F.build(sys.argv[2], sys.argv[3])
+        report(analyze_masks(f), only_failed="--all" not in sys.argv)
         sys.exit(0)
     if sys.argv[1] == "bits":
         f = F.build(sys.argv[2], sys.argv[3])
